@@ -57,8 +57,9 @@ GEOMS = {
     "M1": ("MultiPoint", [[7.0, 1000.0], [9.0, 3000.0]]),
     "M2": ("MultiPoint", [[7.0, 3000.0], [9.0, 1000.0]]),
 }
-ANN_TAGS = {"quick": [[], ["t0"], ["oov", "t1"]],
-            "thorough": [[], ["t0"], ["t1"], ["oov"], ["oovt", "t1"]]}
+# an annotation with two vocabulary tags belongs to the class of the first one IN THE ANNOTATION'S ORDER (both orders present)
+ANN_TAGS = {"quick": [[], ["t0"], ["oov", "t1"], ["t0", "t1"], ["t1", "t0"]],
+            "thorough": [[], ["t0"], ["t1"], ["oov"], ["oovt", "t1"], ["t0", "t1"], ["t1", "t0"]]}
 # predicted (tag, score) lists
 VECS = {
     "quick": [[["t0", 0.5]], [["t0", 0.25], ["t1", 0.5]], [["t1", 0.5], ["oov", 0.25]]],
@@ -229,7 +230,10 @@ def run_case(case):
     cls = {"fn": "sound_event_detection"}
     geomless = any(e.sound_event.geometry is None for x in cas + cps if x.clip.uuid in both for e in x.sound_events)
     try:
-        ev = sound_event_detection(cps, cas, vocab)
+        if (len(cps) + len(cas)) % 2:  # the three arguments are typed Sequence: tuples are as good as lists
+            ev = sound_event_detection(tuple(cps), tuple(cas), tuple(vocab))
+        else:
+            ev = sound_event_detection(cps, cas, vocab)
     except Exception as e:  # noqa
         n_items = sum(len(x.sound_events) for x in cas + cps if x.clip.uuid in both)
         if not both or n_items == 0:
